@@ -23,6 +23,7 @@
 import logging
 from typing import Sequence
 from jellyfysh.base.logging import log_init_arguments
+from jellyfysh.base import vectors
 from .abstracts import MexicanHatPotential
 from .inverse_power_potential import InversePowerPotential
 
@@ -94,6 +95,9 @@ class LennardJonesPotential(MexicanHatPotential):
         float
             The potential.
         """
+        if vectors.norm_sq(separation) == 0.0:
+            # The repulsive part dominates at a vanishing separation (inf - inf would be nan).
+            return float('inf')
         return (self._six_power_potential.potential(1.0, separation)
                 + self._twelve_power_potential.potential(1.0, separation))
 
